@@ -2,13 +2,18 @@
  * lean/HawkModel/Drv/ReadIo.lean and prints the same canonical lines.
  *
  *   KIND MODE FILE*
- *   KIND  C  custom console handler that serves the files under the given chunking (READ returns one chunk per call,
- *            0 at the end of each file, NEXT opens the next file and sets FILENAME)
- *         F  the std.c console chain over real temporary files in <scratch> (argv[1]); pos/len are printed but the
- *            check ignores them for this kind (sio decides the chunking)
- *         X  all 2^(n-1) chunkings of the single file, one output line per chunking, through the custom handler
- *         B  like C, Y like X, but the records are read as bytes: hawk_rtx_readiobytes through
- *            BEGIN { while ((getbline x) > 0) print NR, FNR, FILENAME, "[" x "]" }  (handler command READ_BYTES)
+ *   FILE  name=<hex of the file's BYTES (UTF-8)>/<cut positions>
+ *   KIND  layer exercised
+ *         C  rio.c record reader over a custom console handler that serves CHARACTERS (the file decoded from UTF-8) under the
+ *            given chunking in characters (READ returns one chunk per call, 0 at the end of each file, NEXT opens the
+ *            next file and sets FILENAME).  X = all 2^(n-1) character chunkings of the single file, one line per chunking.
+ *         B  like C, Y like X, but the handler serves raw BYTES and the records are read as bytes: hawk_rtx_readiobytes
+ *            through BEGIN { while ((getbline x) > 0) print NR, FNR, FILENAME, "[" x "]" }  (handler command READ_BYTES)
+ *         F  std.c console chain + sio/tio (UTF-8 decoding, 2048-byte read buffer) over real temporary files in <scratch>
+ *            (argv[1]); G = the same read with getbline.  in.pos/len are printed but the check ignores them (sio decides).
+ *         P  std.c console + sio/tio reading standard input, which is a real pipe fed by a writer thread with the BYTES of
+ *            the single file under the given chunking in bytes: every read(2) returns exactly one chunk (the writer
+ *            waits until the pipe is empty); Q = the same read with getbline; Z = all 2^(n-1) byte chunkings (like X).
  *   program:  BEGIN { RS = ...; ORS = "\001" } { print NR, FNR, FILENAME, "[" $0 "]" }
  *   after every record the console-read `hawk_rio_arg_t.in.{pos,len,eof}` is dumped (internal state, not only output)
  */
@@ -19,6 +24,10 @@
 #include <string.h>
 #include <signal.h>
 #include <unistd.h>
+#include <pthread.h>
+#include <errno.h>
+#include <sys/ioctl.h>
+#include <fcntl.h>
 
 #define MAXFILES 16
 #define MAXDATA  (1 << 17)
@@ -28,8 +37,10 @@ typedef struct
 {
 	hawk_ooch_t name[64];
 	size_t namelen;
-	hawk_ooch_t* data;
+	hawk_ooch_t* data;    /* what the custom handler serves: decoded characters (C, X) or the bytes one by one (B, Y) */
 	size_t len;
+	unsigned char* bytes; /* the file as it is */
+	size_t nbytes;
 	size_t* cuts;
 	size_t ncuts;
 } file_t;
@@ -78,7 +89,28 @@ static hawk_ooi_t console_write (hawk_rtx_t* rtx, hawk_rio_cmd_t cmd, hawk_rio_a
 			hawk_oow_t i;
 			for (i = 0; i < size; i++)
 			{
-				char ch = (cmd == HAWK_RIO_CMD_WRITE)? (char)((hawk_ooch_t*)data)[i]: ((char*)data)[i];
+				char ch;
+				if (cmd == HAWK_RIO_CMD_WRITE)
+				{
+					/* characters leave as UTF-8 */
+					unsigned int c = (unsigned int)((hawk_ooch_t*)data)[i] & 0xFFFFu;
+					if (c >= 0x800)
+					{
+						char u[3];
+						u[0] = (char)(0xE0 | (c >> 12)); u[1] = (char)(0x80 | ((c >> 6) & 0x3F)); u[2] = (char)(0x80 | (c & 0x3F));
+						out_append (u, 3);
+						continue;
+					}
+					else if (c >= 0x80)
+					{
+						char u[2];
+						u[0] = (char)(0xC0 | (c >> 6)); u[1] = (char)(0x80 | (c & 0x3F));
+						out_append (u, 2);
+						continue;
+					}
+					ch = (char)c;
+				}
+				else ch = ((char*)data)[i];
 				out_append (&ch, 1);
 				if (ch == '\001')
 				{
@@ -185,44 +217,73 @@ static int hexval (int c)
 static hawk_t* cached_hawk;
 static char cached_key[512];
 
+/* decode one UTF-8 sequence (1..3 bytes; anything else is taken as a single byte) */
+static size_t utf8_dec (const unsigned char* p, size_t n, unsigned int* c)
+{
+	if (n >= 2 && (p[0] & 0xE0) == 0xC0 && (p[1] & 0xC0) == 0x80) { *c = ((p[0] & 0x1Fu) << 6) | (p[1] & 0x3Fu); return 2; }
+	if (n >= 3 && (p[0] & 0xF0) == 0xE0 && (p[1] & 0xC0) == 0x80 && (p[2] & 0xC0) == 0x80)
+	{
+		*c = ((p[0] & 0x0Fu) << 12) | ((p[1] & 0x3Fu) << 6) | (p[2] & 0x3Fu);
+		return 3;
+	}
+	*c = p[0];
+	return 1;
+}
+
+static hawk_ooch_t wprog[4096];
+static size_t wlen;
+
+static void wput (const char* a)
+{
+	while (*a && wlen < HAWK_COUNTOF(wprog) - 1) wprog[wlen++] = (unsigned char)*a++;
+}
+
 static hawk_t* get_hawk (const char* mode, int bytes)
 {
-	/* mode: D | S<hh> | P0 | P1 | R<hex>:<ast> */
-	char prog[2048];
-	char rs[1024];
+	/* mode: D | S<hex of one character> | P0 | P1 | R<hex of the RS text>:<ast> */
 	hawk_t* hawk;
 	hawk_parsestd_t psin[2];
-	static hawk_ooch_t wprog[2048];
-	size_t i, n;
 	int crlf = 0;
-
 	char key[512];
 
 	snprintf (key, sizeof(key), "%c%s", bytes? 'B': 'C', mode);
 	if (cached_hawk && strcmp(cached_key, key) == 0) return cached_hawk;
 	if (cached_hawk) { hawk_close (cached_hawk); cached_hawk = HAWK_NULL; }
 
-	rs[0] = '\0';
+	wlen = 0;
+	wput ("BEGIN { ");
 	if (mode[0] == 'D') { /* RS untouched */ }
-	else if (mode[0] == 'P') { strcpy (rs, "RS = \"\"; "); crlf = (mode[1] == '1'); }
+	else if (mode[0] == 'P') { wput ("RS = \"\"; "); crlf = (mode[1] == '1'); }
 	else if (mode[0] == 'S' || mode[0] == 'R')
 	{
+		unsigned char rsb[256];
+		size_t nb = 0, k = 0;
 		const char* h = mode + 1;
-		char* q = rs;
-		q += sprintf(q, "RS = \"");
-		while (hexval(h[0]) >= 0 && hexval(h[1]) >= 0)
+		while (hexval(h[0]) >= 0 && hexval(h[1]) >= 0 && nb < sizeof(rsb))
 		{
-			q += sprintf(q, "\\%03o", hexval(h[0]) * 16 + hexval(h[1]));
+			rsb[nb++] = (unsigned char)(hexval(h[0]) * 16 + hexval(h[1]));
 			h += 2;
 		}
-		q += sprintf(q, "\"; ");
+		wput ("RS = \"");
+		while (k < nb)
+		{
+			unsigned int c;
+			k += utf8_dec(&rsb[k], nb - k, &c);
+			if (c < 0x80)
+			{
+				char esc[8];
+				snprintf (esc, sizeof(esc), "\\%03o", c);
+				wput (esc);
+			}
+			else if (wlen < HAWK_COUNTOF(wprog) - 1) wprog[wlen++] = (hawk_ooch_t)c; /* the character itself */
+		}
+		wput ("\"; ");
 	}
 	else return HAWK_NULL;
 
-	if (bytes)
-		snprintf (prog, sizeof(prog), "BEGIN { %sORS = \"\\001\"; while ((getbline x) > 0) print NR, FNR, FILENAME, \"[\" x \"]\" }", rs);
-	else
-		snprintf (prog, sizeof(prog), "BEGIN { %sORS = \"\\001\" } { print NR, FNR, FILENAME, \"[\" $0 \"]\" }", rs);
+	if (bytes) wput ("ORS = \"\\001\"; while ((getbline x) > 0) print NR, FNR, FILENAME, \"[\" x \"]\" }");
+	else wput ("ORS = \"\\001\" } { print NR, FNR, FILENAME, \"[\" $0 \"]\" }");
+	wprog[wlen] = 0;
 
 	hawk = hawk_openstd(0, HAWK_NULL);
 	if (!hawk) return HAWK_NULL;
@@ -234,16 +295,13 @@ static hawk_t* get_hawk (const char* mode, int bytes)
 		hawk_setopt (hawk, HAWK_OPT_TRAIT, &trait);
 	}
 
-	n = strlen(prog);
-	for (i = 0; i < n; i++) wprog[i] = (unsigned char)prog[i];
-	wprog[n] = 0;
 	psin[0].type = HAWK_PARSESTD_OOCS;
 	psin[0].u.oocs.ptr = wprog;
-	psin[0].u.oocs.len = n;
+	psin[0].u.oocs.len = wlen;
 	psin[1].type = HAWK_PARSESTD_NULL;
 	if (hawk_parsestd(hawk, psin, HAWK_NULL) <= -1)
 	{
-		fprintf (stderr, "parse error: %s\n", prog);
+		fprintf (stderr, "parse error for mode %s\n", mode);
 		hawk_close (hawk);
 		return HAWK_NULL;
 	}
@@ -252,7 +310,7 @@ static hawk_t* get_hawk (const char* mode, int bytes)
 	return hawk;
 }
 
-static int parse_file (char* w, file_t* f)
+static int parse_file (char* w, file_t* f, int raw)
 {
 	/* name=hex/cuts */
 	char* eq = strchr(w, '=');
@@ -271,9 +329,26 @@ static int parse_file (char* w, file_t* f)
 	n = strlen(eq + 1) / 2;
 	if (n > MAXDATA) return -1;
 	if (!f->data) f->data = malloc(MAXDATA * sizeof(hawk_ooch_t));
+	if (!f->bytes) f->bytes = malloc(MAXDATA);
 	if (!f->cuts) f->cuts = malloc(MAXDATA * sizeof(size_t));
-	for (i = 0; i < n; i++) f->data[i] = hexval(eq[1 + 2 * i]) * 16 + hexval(eq[2 + 2 * i]);
-	f->len = n;
+	for (i = 0; i < n; i++) f->bytes[i] = (unsigned char)(hexval(eq[1 + 2 * i]) * 16 + hexval(eq[2 + 2 * i]));
+	f->nbytes = n;
+	if (raw)
+	{
+		for (i = 0; i < n; i++) f->data[i] = f->bytes[i];
+		f->len = n;
+	}
+	else
+	{
+		size_t k = 0;
+		f->len = 0;
+		while (k < n)
+		{
+			unsigned int c;
+			k += utf8_dec(&f->bytes[k], n - k, &c);
+			f->data[f->len++] = (hawk_ooch_t)c;
+		}
+	}
 	f->ncuts = 0;
 	{
 		char* p = sl + 1;
@@ -330,6 +405,35 @@ static void print_result (const char* prefix, int err, const char* errmsg)
 
 static char errbuf[512];
 
+/* writer side of the pipe of kinds P, Q, Z: one write(2) per chunk, the next one only when the pipe is empty again,
+ * so that every read(2) of the reader returns exactly one chunk (or its first part if its buffer is smaller) */
+typedef struct { int wfd; int rfd; file_t* f; } feeder_t;
+
+static void* feeder_main (void* arg)
+{
+	feeder_t* fd = (feeder_t*)arg;
+	file_t* f = fd->f;
+	size_t o = 0, ci = 0;
+	while (o < f->nbytes)
+	{
+		size_t next, done = 0;
+		int avail = 1;
+		while (ci < f->ncuts && f->cuts[ci] <= o) ci++;
+		next = (ci < f->ncuts && f->cuts[ci] < f->nbytes)? f->cuts[ci]: f->nbytes;
+		while (ioctl(fd->rfd, FIONREAD, &avail) == 0 && avail > 0) usleep (20);
+		while (done < next - o)
+		{
+			ssize_t w = write(fd->wfd, &f->bytes[o + done], next - o - done);
+			if (w <= 0) { if (w < 0 && errno == EINTR) continue; goto out; }
+			done += (size_t)w;
+		}
+		o = next;
+	}
+out:
+	close (fd->wfd);
+	return HAWK_NULL;
+}
+
 static int run_once (hawk_t* hawk, int kind)
 {
 	hawk_rtx_t* rtx;
@@ -338,11 +442,15 @@ static int run_once (hawk_t* hawk, int kind)
 	hawk_ooch_t* icf[MAXFILES + 1];
 	static hawk_ooch_t paths[MAXFILES][256];
 	int i, ret = 0;
+	int piped = (kind == 'P' || kind == 'Q');
+	int saved0 = -1;
+	pthread_t th;
+	feeder_t feeder;
 
 	outlen = 0; in_arg = HAWK_NULL; reads = 0;
 	strcpy (final_state, "e?");
 
-	if (kind == 'F')
+	if (kind == 'F' || kind == 'G')
 	{
 		for (i = 0; i < nfiles; i++)
 		{
@@ -354,7 +462,7 @@ static int run_once (hawk_t* hawk, int kind)
 			path[files[i].namelen] = '\0';
 			fp = fopen(path, "wb");
 			if (!fp) { snprintf (errbuf, sizeof(errbuf), "cannot write %s", path); return -1; }
-			for (k = 0; k < files[i].len; k++) fputc ((int)files[i].data[k], fp);
+			if (files[i].nbytes > 0 && fwrite(files[i].bytes, 1, files[i].nbytes, fp) != files[i].nbytes) { fclose (fp); return -1; }
 			fclose (fp);
 			for (k = 0; k <= files[i].namelen; k++) paths[i][k] = files[i].name[k];
 			icf[i] = paths[i];
@@ -364,13 +472,29 @@ static int run_once (hawk_t* hawk, int kind)
 	}
 	else
 	{
+		if (piped)
+		{
+			int pfd[2];
+			if (nfiles != 1 || pipe(pfd) != 0) { snprintf (errbuf, sizeof(errbuf), "pipe failed"); return -1; }
+			saved0 = dup(0);
+			dup2 (pfd[0], 0);
+			close (pfd[0]);
+			feeder.wfd = pfd[1]; feeder.rfd = 0; feeder.f = &files[0];
+			if (pthread_create(&th, HAWK_NULL, feeder_main, &feeder) != 0)
+			{
+				close (pfd[1]); dup2 (saved0, 0); close (saved0);
+				snprintf (errbuf, sizeof(errbuf), "thread failed");
+				return -1;
+			}
+		}
+		/* no input file named: the std console reads standard input */
 		rtx = hawk_rtx_openstd(hawk, 0, HAWK_T("readio_h"), HAWK_NULL, HAWK_NULL, HAWK_NULL);
 	}
-	if (!rtx) { snprintf (errbuf, sizeof(errbuf), "rtx open failed"); return -1; }
+	if (!rtx) { snprintf (errbuf, sizeof(errbuf), "rtx open failed"); ret = -1; goto done; }
 
 	hawk_rtx_getrio (rtx, &rio);
 	std_console = rio.console;
-	rio.console = (kind == 'F')? console_std: console_custom;
+	rio.console = (kind == 'F' || kind == 'G' || piped)? console_std: console_custom;
 	hawk_rtx_setrio (rtx, &rio);
 
 	rv = hawk_rtx_loop(rtx);
@@ -384,6 +508,17 @@ static int run_once (hawk_t* hawk, int kind)
 	}
 	else hawk_rtx_refdownval (rtx, rv);
 	hawk_rtx_close (rtx);
+
+done:
+	if (piped)
+	{
+		/* the reader is gone: unblock the writer if it still has something to say, then restore fd 0 */
+		int nul = open("/dev/null", 0);
+		if (nul >= 0) { dup2 (nul, 0); close (nul); }
+		pthread_join (th, HAWK_NULL);
+		dup2 (saved0, 0);
+		close (saved0);
+	}
 	return ret;
 }
 
@@ -399,38 +534,47 @@ int main (int argc, char* argv[])
 {
 	static char line[4 * MAXDATA];
 	int wd = 20;
+	FILE* in;
 
 	if (argc >= 2) scratch = argv[1];
 	if (argc >= 3) wd = atoi(argv[2]);
 	if (chdir(scratch) != 0) { perror ("chdir"); return 2; }
 	signal (SIGALRM, on_alarm);
+	signal (SIGPIPE, SIG_IGN);
+	/* fd 0 is lent to the std console for the pipe kinds: the cases are read from a copy of it */
+	in = fdopen(dup(0), "r");
+	if (!in) { perror ("fdopen"); return 2; }
 
-	while (fgets(line, sizeof(line), stdin))
+	while (fgets(line, sizeof(line), in))
 	{
 		char* words[MAXFILES + 3];
-		int nw = 0, i, kind;
+		int nw = 0, i, kind, raw = 0;
 		char* p = strtok(line, " \r\n");
 		hawk_t* hawk;
 
 		while (p && nw < MAXFILES + 2) { words[nw++] = p; p = strtok(HAWK_NULL, " \r\n"); }
 		if (nw < 2) { puts ("bad-case"); continue; }
 		kind = words[0][0];
-		hawk = get_hawk(words[1], kind == 'B' || kind == 'Y');
+		{
+			int bytes = (kind == 'B' || kind == 'Y' || kind == 'G' || kind == 'Q');
+			raw = bytes; /* the custom handler serves the bytes one by one */
+			hawk = get_hawk(words[1], bytes);
+		}
 		if (!hawk) { puts ("bad-case"); continue; }
 		nfiles = 0;
 		for (i = 2; i < nw; i++)
 		{
-			if (parse_file(words[i], &files[nfiles]) <= -1) { nfiles = -1; break; }
+			if (parse_file(words[i], &files[nfiles], raw) <= -1) { nfiles = -1; break; }
 			nfiles++;
 		}
 		if (nfiles < 0) { puts ("bad-case"); continue; }
 
 		alarm (wd);
-		if (kind == 'X' || kind == 'Y')
+		if (kind == 'X' || kind == 'Y' || kind == 'Z')
 		{
 			size_t n, mask, total;
-			if (nfiles != 1 || files[0].len > 20) { puts ("bad-case"); continue; }
-			n = files[0].len;
+			if (nfiles != 1 || files[0].len > 20 || files[0].nbytes > 20) { puts ("bad-case"); continue; }
+			n = (kind == 'Z')? files[0].nbytes: files[0].len;
 			total = (n >= 1)? ((size_t)1 << (n - 1)): 1;
 			for (mask = 0; mask < total; mask++)
 			{
@@ -439,12 +583,12 @@ int main (int argc, char* argv[])
 				int r;
 				files[0].ncuts = 0;
 				for (k = 0; k + 1 < n; k++) if (mask & ((size_t)1 << k)) files[0].cuts[files[0].ncuts++] = k + 1;
-				r = run_once(hawk, 'C');
+				r = run_once(hawk, (kind == 'Z')? 'P': 'C');
 				snprintf (prefix, sizeof(prefix), "m%zu ", mask);
 				print_result (prefix, r <= -1, errbuf);
 			}
 		}
-		else if (kind == 'C' || kind == 'F' || kind == 'B')
+		else if (kind == 'C' || kind == 'F' || kind == 'B' || kind == 'G' || kind == 'P' || kind == 'Q')
 		{
 			int r = run_once(hawk, kind);
 			print_result ("", r <= -1, errbuf);
